@@ -30,7 +30,7 @@ def classify(t):
         return "mps-next-field"
     if "stack-buffer-overflow" in first and "WRITE of size" in first and fr == "":
         return "msg-buffer-overflow"      # the overflowing vsprintf destroyed its own frame: ASan cannot unwind ("nested bug")
-    if "ILLfree_rawlpdata" in fr or "ILLraw_add_sos" in fr or "sos" in fr.lower():
+    if "ILLfree_rawlpdata" in fr or "ILLraw_add_sos" in fr or "sos" in fr.lower() or ("mps_fill_in" in fr and "EGlpNumSet" in fr):
         return "sos-weight-alloc"
     if "buildMatrix" in fr:
         return "buildmatrix-colnames"
@@ -51,6 +51,13 @@ def make_files(ck):
             return      # exponents beyond 4 digits: out of scope (resource question, see properties.jsonl)
         files.append((label, fmt, data, ext))
 
+    # replays of earlier failures first
+    cdir = os.path.join(VERIF, "corpus", "C11")
+    if os.path.isdir(cdir):
+        for fn in sorted(os.listdir(cdir)):
+            fmt = {"lp": "LP", "mps": "MPS", "bas": "BAS"}.get(fn.rsplit(".", 1)[-1])
+            if fmt:
+                add("corpus", fmt, open(os.path.join(cdir, fn), "rb").read())
     n = 6000 if ck.thorough() else 330
     step = 1 if ck.thorough() else 2
     for base, fmt in ((G.SMALL_LP, "LP"), (G.SMALL_LP2, "LP"), (G.SMALL_MPS, "MPS"), (G.SMALL_BAS, "BAS")):
